@@ -94,6 +94,8 @@ type simWriter struct {
 	env  *ioEnv
 	dest string // "out" or "files"
 	buf  *bytes.Buffer
+	over []byte // non-nil: the file was opened without truncation; content is over[...] with writes laid over it at pos
+	pos  int
 }
 
 //go:norace
@@ -132,7 +134,20 @@ func (w *simWriter) Write(p []byte) (int, error) {
 			break
 		}
 	}
-	w.buf.Write(p[:rec.Ret])
+	if w.over != nil {
+		for _, c := range p[:rec.Ret] {
+			if w.pos < len(w.over) {
+				w.over[w.pos] = c
+			} else {
+				w.over = append(w.over, c)
+			}
+			w.pos++
+		}
+		w.buf.Reset()
+		w.buf.Write(w.over)
+	} else {
+		w.buf.Write(p[:rec.Ret])
+	}
 	e.writes = append(e.writes, rec)
 	if rec.Err {
 		if rec.Fault == "short_write" {
@@ -339,6 +354,47 @@ func (e *ioEnv) Create(name string) (simrt.FileImpl, error) {
 	e.files[name] = b
 	dest := "files"
 	return &outFile{w: simWriter{env: e, dest: dest, buf: b}, name: name}, nil
+}
+
+// OpenFile models the flags that matter for an output file: O_TRUNC empties it, O_APPEND starts at
+// its end, otherwise writing starts at offset 0 over whatever the file already holds (pre-existing
+// content comes from the case's files: a file left behind by an earlier run).
+//
+//go:norace
+func (e *ioEnv) OpenFile(name string, flag int, perm os.FileMode) (simrt.FileImpl, error) {
+	if flag&(os.O_WRONLY|os.O_RDWR) == 0 {
+		return e.Open(name)
+	}
+	simrt.Yield("openfile " + name)
+	e.nCreate++
+	for _, f := range e.faults {
+		if f.Kind == "create_error" && f.K == e.nCreate {
+			e.fire("create_error")
+			return nil, errInjectedCreate
+		}
+	}
+	old, existed := e.inputs[name]
+	if b, ok := e.files[name]; ok {
+		old, existed = b.Bytes(), true
+	}
+	if !existed && flag&os.O_CREATE == 0 {
+		return nil, &os.PathError{Op: "open", Path: name, Err: syscall.ENOENT}
+	}
+	b := &bytes.Buffer{}
+	if _, dup := e.files[name]; !dup {
+		e.order = append(e.order, name)
+	}
+	e.files[name] = b
+	of := &outFile{w: simWriter{env: e, dest: "files", buf: b}, name: name}
+	if flag&os.O_TRUNC == 0 && len(old) > 0 {
+		// keep the old bytes; writes overwrite from the start (or append)
+		of.w.over = append([]byte(nil), old...)
+		if flag&os.O_APPEND != 0 {
+			of.w.pos = len(old)
+		}
+		b.Write(old)
+	}
+	return of, nil
 }
 
 //go:norace
